@@ -52,6 +52,45 @@ class _DoRewriter(ast.NodeTransformer):
         return node
 
 
+class _IfNormaliser(ast.NodeTransformer):
+    """`if not X: A else: B`  ==>  `if X: B else: A` (when B is not an elif chain): the two spellings are the same program,
+    and the rules are written for the positive form"""
+
+    def __init__(self):
+        self.count = 0
+
+    def visit_If(self, node):
+        self.generic_visit(node)
+        t = node.test
+        if node.orelse and isinstance(t, ast.UnaryOp) and isinstance(t.op, ast.Not):
+            node.test = t.operand
+            node.body, node.orelse = node.orelse, node.body
+            self.count += 1
+        return node
+
+    _MIRROR = {ast.Lt: ast.Gt, ast.Gt: ast.Lt, ast.LtE: ast.GtE, ast.GtE: ast.LtE, ast.Eq: ast.Eq, ast.NotEq: ast.NotEq,
+               ast.Is: ast.Is, ast.IsNot: ast.IsNot}
+
+    def visit_Compare(self, node):
+        # a constant on the left goes to the right: `'up' == round` is `round == 'up'`
+        self.generic_visit(node)
+        if len(node.ops) == 1 and isinstance(node.left, ast.Constant) and not isinstance(node.comparators[0], ast.Constant) \
+                and type(node.ops[0]) in self._MIRROR:
+            node.left, node.comparators[0] = node.comparators[0], node.left
+            node.ops[0] = self._MIRROR[type(node.ops[0])]()
+            self.count += 1
+        return node
+
+    def visit_IfExp(self, node):
+        self.generic_visit(node)
+        t = node.test
+        if isinstance(t, ast.UnaryOp) and isinstance(t.op, ast.Not):
+            node.test = t.operand
+            node.body, node.orelse = node.orelse, node.body
+            self.count += 1
+        return node
+
+
 def set_parents(tree):
     tree.parent = None
     for node in ast.walk(tree):
@@ -108,6 +147,41 @@ def _bound_names(fnode):
                 out.add(x.arg)
         stack.extend(ast.iter_child_nodes(n))
     return out - glob
+
+
+def _shape_key(e):
+    """ordering key of an operand that does not depend on how locals are spelled"""
+    parts = []
+    for x in ast.walk(e):
+        parts.append(type(x).__name__)
+        if isinstance(x, ast.Attribute):
+            parts.append(x.attr)
+        elif isinstance(x, ast.Constant):
+            parts.append(repr(x.value))
+    return (len(parts), parts)
+
+
+class _Orient(ast.NodeTransformer):
+    """one spelling per comparison: `a > b` -> `b < a`, `a >= b` -> `b <= a`; operands of == / != in a name-independent order"""
+
+    def visit_Compare(self, node):
+        self.generic_visit(node)
+        if len(node.ops) != 1:
+            return node
+        op, l, r = node.ops[0], node.left, node.comparators[0]
+        if isinstance(op, ast.Gt):
+            node.left, node.comparators, node.ops = r, [l], [ast.Lt()]
+        elif isinstance(op, ast.GtE):
+            node.left, node.comparators, node.ops = r, [l], [ast.LtE()]
+        elif isinstance(op, (ast.Eq, ast.NotEq)) and _shape_key(r) < _shape_key(l):
+            node.left, node.comparators = r, [l]
+        return node
+
+
+def orient_text(x):
+    """text of an expression (AST node or source) with every comparison in its one canonical spelling"""
+    t = ast.parse(x if isinstance(x, str) else ast.unparse(x), mode='eval').body
+    return ast.unparse(_Orient().visit(t))
 
 
 class _Alpha(ast.NodeTransformer):
@@ -177,6 +251,7 @@ def alpha_texts(nodes, fnode_chain=(), drop_docstring=True, extra_names=None):
                 if isinstance(x, (ast.FunctionDef, ast.AsyncFunctionDef, ast.ClassDef)) and x.body and isinstance(x.body[0], ast.Expr) \
                         and isinstance(x.body[0].value, ast.Constant) and isinstance(x.body[0].value.value, str):
                     x.body = x.body[1:] or [ast.Pass()]
+        c = _Orient().visit(c)
         c = tr.visit(c)
         out.append(' '.join(ast.unparse(c).split()))
     return out
@@ -230,6 +305,7 @@ class Module:
         tree = ast.parse(self.src, filename=path)
         rw = _DoRewriter()
         self.tree = rw.visit(tree)
+        self.tree = _IfNormaliser().visit(self.tree)
         ast.fix_missing_locations(self.tree)
         self.do_rewrites = rw.count
         set_parents(self.tree)
